@@ -235,12 +235,16 @@ def run_dimwise(case, res):
         ct = dimwise.build(cfg, ft, ot, grid=dw_grid(cfg))
         r = dimwise.run(ct, cfg, et, max_evaluations=npts - 1, reevaluate_at_end=rev)
         outs.append(None if r is None else np.array(r[3], dtype=float))
+        twin_evals = None if r is None else len(r[6])
     if outs[0] is not None and outs[1] is not None:
         scale = np.maximum(np.abs(outs[0]), np.sum(np.abs(vals * np.asarray(w)[:, None]), axis=0))
         res.close("reevaluate_twin", outs[1], outs[0], 1e-10 * np.maximum(scale, 1e-300), "C05_reevaluate_at_end_changes_result:dimwise",
                   "the result with reevaluate_at_end=True differs from the result without", {"cfg": cfg})
-        res.close("twin_equals_observed", outs[0], final, 1e-10 * np.maximum(scale, 1e-300), "C05_twin_not_reproducible:dimwise",
-                  "harness: twin run does not reproduce the observed run", {"cfg": cfg})
+        if twin_evals == obs.evals:
+            res.close("twin_equals_observed", outs[0], final, 1e-10 * np.maximum(scale, 1e-300), "C05_twin_not_reproducible:dimwise",
+                      "a second run with the same inputs and the same number of evaluations does not reproduce the observed run", {"cfg": cfg})
+        else:   # the observed history ended with refinements that added no point: max_evaluations cannot stop a twin there
+            res.note("twin_stops_at_other_evaluation")
     res.hash = digest([cfg, obs.evals])
     res.nontrivial = obs.evals >= 2
     res.states.add(dimwise.structure_digest(c))
@@ -252,6 +256,7 @@ class ObsES(hooks.Observer):
         super().__init__(cfg["steps"], err, max_points=4000)
         self.res, self.cfg, self.comps = res, cfg, comps
         self.trace = []
+        self.parts_scale = None
 
     def deepest(self, c):
         return 0
@@ -269,6 +274,7 @@ class ObsES(hooks.Observer):
                 if do_compute:
                     parts.append(np.atleast_1d(g2.integrate(f2, lv, area.start, area.end)) * g.coefficient)
         exp = np.sum(parts, axis=0)
+        self.parts_scale = np.sum(np.abs(np.array(parts)), axis=0) if parts else None
         self.res.close("recomputation_extsplit", reported, exp, tol_for(parts), "C05_extsplit_result_differs",
                        "%s: reported value differs from the recomputation over leaves x computed component grids" % where,
                        {"cfg": self.cfg, "leaves": len(extsplit.leaves(c))})
@@ -318,12 +324,17 @@ def run_extsplit(case, res):
         with contextlib.redirect_stdout(io.StringIO()):
             r = extsplit.run(ct, cfg, et, max_evaluations=npts - 1, reevaluate_at_end=rev)
         outs.append(None if r is None else np.array(r[3], dtype=float))
+        twin_evals = None if r is None else len(r[6])
     if outs[0] is not None and outs[1] is not None:
-        scale = np.maximum(np.abs(outs[0]), 1e-300) + np.abs(final)
+        # conditioning: the result is a signed sum of per-area / per-grid contributions (recorded by the observer)
+        scale = np.maximum(np.abs(outs[0]), 1e-300) + np.abs(final) + (obs.parts_scale if obs.parts_scale is not None else 0.0)
         res.close("reevaluate_twin", outs[1], outs[0], 1e-9 * scale, "C05_reevaluate_at_end_changes_result:extsplit",
                   "the result with reevaluate_at_end=True differs from the result without", {"cfg": cfg})
-        res.close("twin_equals_observed", outs[0], final, 1e-9 * scale, "C05_twin_not_reproducible:extsplit",
-                  "harness: twin run does not reproduce the observed run", {"cfg": cfg})
+        if twin_evals == obs.evals:
+            res.close("twin_equals_observed", outs[0], final, 1e-9 * scale, "C05_twin_not_reproducible:extsplit",
+                      "a second run with the same inputs and the same number of evaluations does not reproduce the observed run", {"cfg": cfg})
+        else:
+            res.note("twin_stops_at_other_evaluation")
     res.hash = digest([cfg, obs.evals])
     res.nontrivial = obs.evals >= 2
     res.states.add(extsplit.structure_digest(c))
